@@ -30,6 +30,23 @@ func newWS(c *vf.Case) (*websocket.Stream, *xport.Transport) {
 		c.Failf("stream-constructor", "NewWebsocketStream: %v", err)
 		return nil, nil
 	}
+	if c.Rng.Chance(1, 4) {
+		// The stream under test has been used before: its previous session ended in the middle of a fragmented message,
+		// in the middle of a frame, with an asynchronous write still held by the transport, and by transport EOF. A stream
+		// that is set up again must behave like a fresh one (reset() is what a new handshake runs).
+		t0 := xport.New()
+		if err := s.VerifAttach(t0); err == nil {
+			frag := wsref.Frame{Fin: false, Opcode: wsref.OpText, Payload: []byte("left over from the previous session")}.Encode()
+			half := wsref.Frame{Fin: true, Opcode: wsref.OpCont, Payload: make([]byte, 50)}.Encode()[:20]
+			t0.Feed(append(frag, half...))
+			_, _, _ = s.NextMessage(make([]byte, 256))
+			t0.HoldWrites = true
+			s.AsyncWrite([]byte("never completed"), websocket.TypeText, func(error) {})
+			t0.SetEnd(xport.EndEOF)
+			_, _ = s.NextFrame()
+			c.Count("streams_reused_after_a_dirty_session", 1)
+		}
+	}
 	t := xport.New()
 	if err := s.VerifAttach(t); err != nil {
 		c.Failf("verif-attach", "VerifAttach: %v", err)
